@@ -38,4 +38,15 @@ def load (canAlloc : Nat → Bool) : (slots : Nat) → List (Option Nat) → Opt
     else if h > slots ∧ ¬ canAlloc (h - slots) then none   -- "temporary public identifier ... is too large"
     else (load canAlloc (h + 1) rest).map (h :: ·)
 
+/-- the visitor loop on a store that holds `pre` annotations already (a second document merged into it, an included
+sub-store): a temporary identifier is accepted as long as the store has not grown beyond it by more than what was
+there before; an item lands at its handle when that lies beyond the slots in use, and is appended otherwise -/
+def loadInto (canAlloc : Nat → Bool) (pre : Nat) : (slots : Nat) → List (Option Nat) → Option (List Nat)
+  | _, [] => some []
+  | slots, none :: rest => (loadInto canAlloc pre (slots + 1) rest).map (slots :: ·)
+  | slots, some h :: rest =>
+    if slots > h + pre then none
+    else if h > slots ∧ ¬ canAlloc (h - slots) then none
+    else (loadInto canAlloc pre (max h slots + 1) rest).map (max h slots :: ·)
+
 end Stam.UT
